@@ -9,6 +9,7 @@ pub mod c04;
 pub mod c05;
 pub mod c06;
 pub mod c07;
+pub mod c08;
 pub mod c11;
 
 pub fn threads() -> usize {
@@ -27,6 +28,7 @@ pub fn dispatch(id: &str, tier: Tier, replay: Option<Value>, _rest: &[String]) -
         "C05" => c05::run(tier, replay),
         "C06" => c06::run(tier, replay),
         "C07" => c07::run(tier, replay),
+        "C08" => c08::run(tier, replay),
         "C11" => c11::run(tier, replay),
         _ => {
             eprintln!("unknown property {id}");
